@@ -66,6 +66,17 @@ def main(argv=None) -> int:
         return 0
     hgmon.pin_repo()
     mod = importlib.import_module(f"hgmon.props.{a.prop}")
+    replay_key = None
+    if a.replay and getattr(mod, "REPLAY_BY_SEED", False):
+        # Histories of this property are regenerated from the seed (objects with identity, long operation
+        # sequences): the replay re-runs the recorded tier at the recorded seed - the run is deterministic under
+        # PYTHONHASHSEED=0 - and reports only the recorded mechanism key.
+        with open(a.replay) as f:
+            rp = json.load(f)
+        seed, a.tier, replay_key = int(rp.get("seed", seed)), rp.get("tier", a.tier), rp.get("key")
+        os.environ["VERIF_SEED"] = str(seed)
+        os.environ.setdefault("HGMON_NO_EVIDENCE", "1")
+        a.replay = None
     jobs = a.jobs or (getattr(mod, "THOROUGH_SHARDS", 12) if a.tier == "thorough" else getattr(mod, "QUICK_SHARDS", 1))
     if a.replay or jobs <= 1:
         results = [run_shard(a.prop, a.tier, seed, (0, 1), a.replay)]
@@ -94,6 +105,10 @@ def main(argv=None) -> int:
                 results.append(json.load(f))
             os.remove(out)
     merged = core.merge_results(results)
+    if replay_key is not None:
+        merged["violations"] = [v for v in merged["violations"] if v["key"] == replay_key]
+        merged["known_hits"] = {k: v for k, v in merged["known_hits"].items() if k == replay_key}
+        print(f"replay of key {replay_key} at seed {seed}, tier {a.tier}: {'recurred' if merged['violations'] or merged['known_hits'] else 'did not recur'}")
     assumptions = getattr(mod, "ASSUMPTIONS", [])
     return core.finish(a.prop, a.tier, seed, mod.LEVEL, mod.RULE, merged, t0, assumptions, deciding=getattr(mod, "DECIDING", None))
 
